@@ -169,6 +169,7 @@ def build(chk):
     c_frames(chk)
     c_detonation(chk)
     c_wallPressure_body(chk)
+    c_getNextPressure(chk)
 
 
 def c_solveWall(chk):
@@ -620,6 +621,73 @@ def c_wallPressure_body(chk):
                     chk.vc(f"wallPressure.body.{tag}.not-converged.mean-of-last-evaluations.{i}", p.pc,
                            And(Eq(P * len(k4), sum(k4)), sym.to_sym(bool(wp is last["wp"] and br is last["br"] and bb is last["bb"]))), func=fn)
     chk.under_contract(MODULE, "EOM.wallPressure")
+
+
+def c_getNextPressure(chk):
+    """_getNextPressure: two successive evaluations from the incoming state; if the three pressures are monotone the outputs are those of
+    the second evaluation (all four from it) with err = |P3 - P2|; otherwise ONE more evaluation at the Aitken point
+    t = (P1 - P2)/(P1 - 2 P2 + P3) of wall parameters and Boltzmann results, whose outputs are returned with err = |P4 - P2|.
+    Every evaluation gets the same boundary data and profiles that were passed in."""
+    fn = f"{EOMQ}._getNextPressure"
+    P1 = real("P.in")
+    consts = {n: real(f"gnp.{n}") for n in ("c1", "c2", "velocityMid", "Tplus", "Tminus", "multiplier")}
+    vevL, vevH, Tprof, vprof = Opaque("vevLowT"), Opaque("vevHighT"), Opaque("temperatureProfile"), Opaque("velocityProfile")
+
+    def ipr(it, so, a, k):
+        n = sum(1 for e in it.events if e.get("kind") == "evaluation")
+        rec = {"kind": "evaluation", "n": n, "P": it.fresh_real(f"P{n + 2}"), "wp": params(f"e{n}"), "br": bres(f"e{n}"),
+               "bb": SymObj("BoltzmannBackground", "containers", label=f"background.e{n}"), "args": list(a), "kwargs": dict(k)}
+        it.events.append(rec)
+        return (rec["P"], rec["wp"], rec["br"], rec["bb"])
+
+    def mk(it):
+        eom = make_eom()
+        wp1, br1 = params("in"), bres("in")
+        return eom, [P1, wp1, vevL, vevH, consts["c1"], consts["c2"], consts["velocityMid"], br1, consts["Tplus"], consts["Tminus"]], \
+            {"temperatureProfile": Tprof, "velocityProfile": vprof, "multiplier": consts["multiplier"]}, {"wp1": wp1, "br1": br1}
+    paths = chk.summarize(MODULE, "EOM._getNextPressure", mk, registry={"EOM._intermediatePressureResults": ipr})
+    rets = sel(paths)
+    if len(rets) != len(paths) or not rets:
+        chk.undecided.append(f"_getNextPressure: {len(paths) - len(rets)} non-returning paths")
+    kinds = set()
+    for i, p in enumerate(rets):
+        evs = [e for e in p.events if e.get("kind") == "evaluation"]
+        P, wp, br, bb, err = p.value
+        last = evs[-1]
+        wp1, br1 = p.state["wp1"], p.state["br1"]
+        chk.vc(f"_getNextPressure.outputs-of-the-last-evaluation.{i}", p.pc,
+               sym.to_sym(bool(len(evs) in (2, 3) and P is last["P"] and wp is last["wp"] and br is last["br"] and bb is last["bb"])), func=fn)
+        if len(evs) < 2:
+            continue
+        P2, P3 = evs[0]["P"], evs[1]["P"]
+        # chaining and pass-through of the boundary data
+        def common(e):
+            a = list(e["args"]) + [e["kwargs"].get(n) for n in ("temperatureProfileInput", "velocityProfileInput", "multiplier")][len(e["args"]) - 9:] if len(e["args"]) < 12 else list(e["args"])
+            return a
+        a0, a1 = common(evs[0]), common(evs[1])
+        ok_chain = (a0[0] is wp1 and a0[6] is br1 and a1[0] is evs[0]["wp"] and a1[6] is evs[0]["br"]
+                    and all(a[1] is vevL and a[2] is vevH and a[3] is consts["c1"] and a[4] is consts["c2"] and a[5] is consts["velocityMid"]
+                            and a[7] is consts["Tplus"] and a[8] is consts["Tminus"] and a[9] is Tprof and a[10] is vprof and a[11] is consts["multiplier"]
+                            for a in [common(e) for e in evs]))
+        chk.vc(f"_getNextPressure.evaluations-chained-with-the-same-boundary-data.{i}", p.pc, sym.to_sym(bool(ok_chain)), func=fn)
+        if len(evs) == 2:
+            kinds.add("monotone")
+            chk.vc(f"_getNextPressure.monotone.{i}", p.pc, And(Ge((P3 - P2) * (P2 - P1), 0), Eq(err, sp.Abs(P3 - P2))), func=fn)
+        else:
+            kinds.add("aitken")
+            t = (P1 - P2) / (P1 - 2 * P2 + P3)
+            a2 = common(evs[2])
+            w_in, b_in = a2[0], a2[6]
+            goals = [Lt((P3 - P2) * (P2 - P1), 0), Eq(err, sp.Abs(evs[2]["P"] - P2))]
+            for nm in ("widths", "offsets"):
+                x1, x2, xi = (as_array(o.attrs[nm]).reshape(-1) for o in (wp1, evs[0]["wp"], w_in))
+                goals += [Eq(xi[j], x1[j] + (x2[j] - x1[j]) * t) for j in range(len(x1))]
+            for nm in ("deltaF", "Deltas"):       # (the error estimates of BoltzmannResults combine with |t| by design: not interpolated)
+                goals.append(Eq(b_in.attrs[nm], br1.attrs[nm] + (evs[0]["br"].attrs[nm] - br1.attrs[nm]) * t))
+            chk.vc(f"_getNextPressure.aitken-point.{i}", p.pc, And(*goals), func=fn)
+            chk.canary(f"_getNextPressure.aitken-point.{i}", p.pc, Eq(as_array(w_in.attrs["widths"]).reshape(-1)[0], as_array(wp1.attrs["widths"]).reshape(-1)[0]), func=fn)
+    if kinds != {"monotone", "aitken"}:
+        chk.undecided.append(f"_getNextPressure: path classes {sorted(kinds)}")
 
 
 def c_detonation(chk):
